@@ -344,7 +344,10 @@ func runTask(n *p2penv.Node, ts taskSpec, logDir string) taskOut {
 		}
 	}
 	to.WallMs = time.Since(t0).Milliseconds()
-	n.Barrier()
+	if !n.Barrier() {
+		to.Fatal = "watchdog: the fake blockchain did not drain its queue"
+		return to
+	}
 	for _, p := range n.Chain.Snapshot(seq0) {
 		if p.Ty != types.EventSyncBlock || p.Block == nil {
 			continue
